@@ -198,7 +198,11 @@ E3 == {Empty, Glob("X1"), Glob("C1"), IntLit(1), Glob("S2")}
 T3 == {Node("TUPLE", <<x, y>>) : x \in {Empty, Glob("X1")}, y \in {Empty, Glob("C1")}}
 SeedEnum3 == {Node("ENUM", <<x, y, z>>) : x \in E3, y \in E3, z \in E3} \cup {Node("ENUM", <<x, y, z>>) : x \in T3, y \in T3, z \in T3}
              \cup {Node("TUPLE", <<x, y, z>>) : x \in {Empty, Glob("X1")}, y \in {Empty, IntLit(1)}, z \in {Glob("C1"), Empty}}
-Seeds == UNION {SeedEnum3, SeedBindMix, SeedFilter, SeedRec, SeedImp, SeedBind, SeedCall, SeedScope, SeedAxiom, SeedLazy, SeedNested, SeedNested2, SeedSibling, SeedFunc}
+\* projections with repeated and permuted indices, on stored relations and on lazily built products
+SeedPr == {Idx(o, ix, <<x>>) : o \in {"BIGPR"}, ix \in {<<1, 1>>, <<2, 1>>, <<2, 1, 2>>, <<1, 1, 1>>, <<2, 2>>}, x \in {Glob("S1"), X1xX1, X1xC1, Node("DECART", <<Glob("C1"), Glob("X1")>>)}}
+          \cup {Node("EQUAL", <<Idx("BIGPR", <<1, 1>>, <<X1xC1>>), Node("DECART", <<Glob("X1"), Glob("X1")>>)>>),
+                Node("IN", <<Node("TUPLE", <<La, Lb>>), Idx("BIGPR", <<1, 1>>, <<X1xX1>>)>>)}
+Seeds == UNION {SeedPr, SeedEnum3, SeedBindMix, SeedFilter, SeedRec, SeedImp, SeedBind, SeedCall, SeedScope, SeedAxiom, SeedLazy, SeedNested, SeedNested2, SeedSibling, SeedFunc}
 
 \* value classes of the context: sets and structures with data are values, a function has the class of its body
 GC0 == [n \in {"X1", "C1", "S1", "S2", "A1"} |-> "value"]
